@@ -1015,7 +1015,7 @@ def check_load(ctx, case, built, lay, loader, rec, mode, datum, labels, recipe_n
             ok = len(got) >= 1 and all(g in ref_errors for g in got)
         else:
             pool = {(k, d) for _, k, d in ref_errors}
-            ok = len(got) >= 1 and all((k, d) in pool and t == () for t, k, d in got)
+            ok = len(got) >= 1 and all((k, d) in pool for _, k, d in got)  # trails in DISABLE mode are C05's subject
         if not ok:
             missing = {k for _, k, _ in ref_errors} - {k for _, k, _ in got}
             surplus = {k for _, k, _ in got} - {k for _, k, _ in ref_errors}
@@ -1164,7 +1164,7 @@ def st_model(draw):  # noqa: C901, PLR0912
     n = draw(st.integers(0, 4)) if draw(st.integers(0, 9)) == 0 else draw(st.integers(1, 4))
     names = draw(st.lists(st.sampled_from(NAME_POOL), min_size=n, max_size=n, unique=True))
     has_inner = draw(st.integers(0, 2)) == 0
-    ndict = draw(st.sampled_from([0, 0, 1, 1, 2]))
+    ndict = draw(st.sampled_from([0, 0, 1, 1, 2, 2]))
     inner = None
     if has_inner:
         k = draw(st.integers(1, 3))
@@ -1394,7 +1394,7 @@ def st_recipe(draw, ms, probe):  # noqa: C901, PLR0912, PLR0915
                 if dict_fields:
                     opts += [["field", dict_fields[0]], ["field", dict_fields[-1]]]
                     if len(dict_fields) > 1:
-                        opts += [["fields", dict_fields], ["fields", dict_fields[::-1]]]
+                        opts += [["fields", dict_fields], ["fields", dict_fields[::-1]]] * 2
             if probe == "skeleton":
                 opts = [o for o in opts if o[0] not in ("skip", "forbid")]
             elif draw(st.integers(0, 24)) == 0:
@@ -1408,7 +1408,7 @@ def st_recipe(draw, ms, probe):  # noqa: C901, PLR0912, PLR0915
                 if dict_fields:
                     opts += [["field", dict_fields[0]], ["field", dict_fields[-1]]]
                     if len(dict_fields) > 1:
-                        opts += [["fields", dict_fields]] * 2
+                        opts += [["fields", dict_fields]] * 4
             prov["extra_out"] = draw(st.sampled_from(opts))
             collecting = collecting or prov["extra_out"][0] != "skip"
         if has_inner and collecting:
@@ -1463,7 +1463,8 @@ def gen_value(draw, f, ms, near_default=True):
     if f["t"] in SCALARS:
         return draw(st_scalar(f["t"]))
     if f["t"] == "dict":
-        keys = draw(st.lists(st.sampled_from(["xa", "xb", "xc", "xd"]), max_size=2, unique=True))
+        pool = ["xa", "xb", "xc"] if f["n"] == "extra" else ["ya", "yb", "xc"]
+        keys = draw(st.lists(st.sampled_from(pool), max_size=2, unique=True))
         return {k: draw(st.sampled_from([1, "v", None, [1], {"n": 1}])) for k in keys}
     return {g["n"]: gen_value(draw, g, ms) for g in ms["inner"]["fields"]}
 
@@ -1633,7 +1634,7 @@ def explore(ctx: runner.Ctx):
     if ctx.shard == 0:
         for case in DOC_EXAMPLES:
             check_case(ctx, case)
-    total = ctx.budget(2400, 150000)
+    total = ctx.budget(2000, 120000)
     probes = max(2, total // 40)
     ctx.given(st_case(), lambda case: check_case(ctx, case), total - 2 * probes)
     ctx.given(st_case(probe="skeleton"), lambda case: check_case(ctx, case), probes, seed_offset=1)
